@@ -171,6 +171,14 @@ pub proof fn lemma_listing_unique(s1: Seq<PeerRow>, s2: Seq<PeerRow>, set: Set<P
     }
 }
 
+/// a listing has as many rows as the set
+pub proof fn lemma_listing_len(s: Seq<PeerRow>, set: Set<PeerRow>)
+    requires peers_listing(s, set)
+    ensures set.finite(), set.len() == s.len()
+{
+    lemma_listing_no_dup(s, set);
+}
+
 /// for any listing `s` of `set`, `peer_list(set)` is `mrf(s)`
 pub proof fn lemma_peer_list_of(s: Seq<PeerRow>, set: Set<PeerRow>)
     requires peers_listing(s, set)
